@@ -132,28 +132,28 @@ Proof.
   unfold bound_somewhere. induction ndict; cbn; auto.
 Qed.
 
-Lemma run_snoc (B : Z -> body S) use_bc r h c : run B use_bc r (h ++ [c]) = run_cycle B use_bc (run B use_bc r h) c.
+Lemma run_snoc (B : Z -> body S) r h c : run B r (h ++ [c]) = run_cycle B (run B r h) c.
 Proof. unfold run. rewrite fold_left_app. reflexivity. Qed.
 
-Lemma kget_run_cycle (B : Z -> body S) use_bc r c j :
-  kget j (r_st (run_cycle B use_bc r c)) =
-  option_map (fun ks => fst (key_step (B j) (c_t c) (bc_arg use_bc (r_bc r) (c_bc c)) j ks (ops_on j (c_ops c)))) (kget j (r_st r)).
+Lemma kget_run_cycle (B : Z -> body S) r c j :
+  kget j (r_st (run_cycle B r c)) =
+  option_map (fun ks => fst (key_step (B j) (c_t c) (c_bc c) j ks (ops_on j (c_ops c)))) (kget j (r_st r)).
 Proof. cbn [run_cycle r_st]. apply kget_next_cycle. Qed.
 
 (* Every key of every reachable state satisfies the invariant. *)
-Lemma reach_kinv (B : Z -> body S) use_bc ndict keys h j ks :
-  kget j (r_st (run B use_bc (start_state ndict keys) h)) = Some ks -> kinv ks.
+Lemma reach_kinv (B : Z -> body S) ndict keys h j ks :
+  kget j (r_st (run B (start_state ndict keys) h)) = Some ks -> kinv ks.
 Proof.
   revert ks. induction h as [|c h IH] using rev_ind; intros ks H.
   - apply kget_start in H. subst ks. apply kinv_init.
   - rewrite run_snoc, kget_run_cycle in H.
-    destruct (kget j (r_st (run B use_bc (start_state ndict keys) h))) as [ks0|]; [|discriminate].
+    destruct (kget j (r_st (run B (start_state ndict keys) h))) as [ks0|]; [|discriminate].
     cbn [option_map] in H. inversion H. apply key_step_kinv.
 Qed.
 
 (* The per-key element values are the global dictionaries' entries for that key. *)
-Lemma reach_vals (B : Z -> body S) use_bc ndict keys h j ks :
-  kget j (r_st (run B use_bc (start_state ndict keys) h)) = Some ks ->
+Lemma reach_vals (B : Z -> body S) ndict keys h j ks :
+  kget j (r_st (run B (start_state ndict keys) h)) = Some ks ->
   length (k_vals ks) = ndict /\ forall i, (i < ndict)%nat -> nth i (k_vals ks) None = dicts_after h i j.
 Proof.
   revert ks. induction h as [|c h IH] using rev_ind; intros ks H.
@@ -161,7 +161,7 @@ Proof.
     intros i Hi. unfold dicts_after. cbn [fold_left].
     clear Hi. revert i. induction ndict as [|n IHn]; intros [|i]; cbn; auto.
   - rewrite run_snoc, kget_run_cycle in H.
-    destruct (kget j (r_st (run B use_bc (start_state ndict keys) h))) as [ks0|] eqn:E0; [|discriminate].
+    destruct (kget j (r_st (run B (start_state ndict keys) h))) as [ks0|] eqn:E0; [|discriminate].
     cbn [option_map] in H. inversion H as [H1]. clear H H1.
     destruct (IH ks0 eq_refl) as [Hl Hv].
     rewrite key_step_vals. split; [rewrite map_length, new_vals_length; exact Hl|].
@@ -188,12 +188,12 @@ Qed.
 
 (* map_keyset_mirrors: in every reachable state, a key has a live instance exactly when it is a key
    of some multiplexed dictionary, and it is an output element only if it has a live instance. *)
-Lemma keyset_mirrors (B : Z -> body S) use_bc ndict keys h j ks :
-  kget j (r_st (run B use_bc (start_state ndict keys) h)) = Some ks ->
+Lemma keyset_mirrors (B : Z -> body S) ndict keys h j ks :
+  kget j (r_st (run B (start_state ndict keys) h)) = Some ks ->
   (is_some (k_inst ks) = true <-> exists i, (i < ndict)%nat /\ dicts_after h i j <> None) /\
   (k_valid ks = true -> is_some (k_inst ks) = true).
 Proof.
-  intros H. destruct (reach_kinv _ _ _ _ _ _ _ H) as [Hl Hv]. destruct (reach_vals _ _ _ _ _ _ _ H) as [Hn Hd].
+  intros H. destruct (reach_kinv _ _ _ _ _ _ H) as [Hl Hv]. destruct (reach_vals _ _ _ _ _ _ H) as [Hn Hd].
   split; [|exact Hv]. rewrite Hl, bound_somewhere_spec, Hn.
   split; intros [i [Hi Hx]]; exists i; (split; [exact Hi|]).
   - rewrite <- Hd by exact Hi. exact Hx.
@@ -215,39 +215,38 @@ Definition same_for (j : Z) (c1 c2 : cyc) : Prop :=
 
 (* two run states look the same to key j *)
 Definition agree_on (j : Z) (r1 r2 : run_state S) : Prop :=
-  kget j (r_st r1) = kget j (r_st r2) /\ r_bc r1 = r_bc r2.
+  kget j (r_st r1) = kget j (r_st r2).
 
-Lemma run_cycle_agree (B1 B2 : Z -> body S) use_bc j r1 r2 c1 c2 :
+Lemma run_cycle_agree (B1 B2 : Z -> body S) j r1 r2 c1 c2 :
   B1 j = B2 j -> agree_on j r1 r2 -> same_for j c1 c2 ->
-  agree_on j (run_cycle B1 use_bc r1 c1) (run_cycle B2 use_bc r2 c2) /\
-  ev_of j (snd (hd (0, false, []) (r_log (run_cycle B1 use_bc r1 c1)))) =
-  ev_of j (snd (hd (0, false, []) (r_log (run_cycle B2 use_bc r2 c2)))).
+  agree_on j (run_cycle B1 r1 c1) (run_cycle B2 r2 c2) /\
+  ev_of j (snd (hd (0, false, []) (r_log (run_cycle B1 r1 c1)))) =
+  ev_of j (snd (hd (0, false, []) (r_log (run_cycle B2 r2 c2)))).
 Proof.
-  intros HB [Hk Hb] [Ht [Hc Ho]]. split; [split|].
-  - rewrite !kget_run_cycle, HB, Hk, Hb, Ht, Hc, Ho. reflexivity.
-  - cbn [run_cycle r_bc]. rewrite Hc, Hb. reflexivity.
-  - cbn [run_cycle r_log hd snd]. rewrite !ev_of_cycle, HB, Hk, Hb, Ht, Hc, Ho. reflexivity.
+  intros HB Hk [Ht [Hc Ho]]. unfold agree_on in *. split.
+  - rewrite !kget_run_cycle, HB, Hk, Ht, Hc, Ho. reflexivity.
+  - cbn [run_cycle r_log hd snd]. rewrite !ev_of_cycle, HB, Hk, Ht, Hc, Ho. reflexivity.
 Qed.
 
-Lemma run_cycle_log (B : Z -> body S) use_bc r c :
-  exists p evs, r_log (run_cycle B use_bc r c) = (c_t c, p, evs) :: r_log r.
+Lemma run_cycle_log (B : Z -> body S) r c :
+  exists p evs, r_log (run_cycle B r c) = (c_t c, p, evs) :: r_log r.
 Proof. cbn [run_cycle r_log]. eauto. Qed.
 
 (* Isolation, general form: from run states that agree on key j, under body families that agree at j,
    along histories that look the same to j (same cycle times, same broadcast, same operations ON j; the
    operations on every other key, the other keys' bodies, states and failures are arbitrary), key j's
    state and key j's trace stay the same. *)
-Lemma isolated_gen (B1 B2 : Z -> body S) use_bc j : forall h1 h2 r1 r2,
+Lemma isolated_gen (B1 B2 : Z -> body S) j : forall h1 h2 r1 r2,
   B1 j = B2 j -> agree_on j r1 r2 -> Forall2 (same_for j) h1 h2 ->
   key_trace j (r_log r1) = key_trace j (r_log r2) ->
-  agree_on j (run B1 use_bc r1 h1) (run B2 use_bc r2 h2) /\
-  key_trace j (r_log (run B1 use_bc r1 h1)) = key_trace j (r_log (run B2 use_bc r2 h2)).
+  agree_on j (run B1 r1 h1) (run B2 r2 h2) /\
+  key_trace j (r_log (run B1 r1 h1)) = key_trace j (r_log (run B2 r2 h2)).
 Proof.
   intros h1 h2 r1 r2 HB Ha HF. revert r1 r2 Ha.
   induction HF as [|c1 c2 h1 h2 Hc HF IH]; intros r1 r2 Ha Htr; [split; assumption|].
-  cbn [run fold_left]. destruct (run_cycle_agree B1 B2 use_bc j r1 r2 c1 c2 HB Ha Hc) as [Ha' He].
+  cbn [run fold_left]. destruct (run_cycle_agree B1 B2 j r1 r2 c1 c2 HB Ha Hc) as [Ha' He].
   apply IH; [exact Ha'|].
-  destruct (run_cycle_log B1 use_bc r1 c1) as [p1 [e1 L1]]. destruct (run_cycle_log B2 use_bc r2 c2) as [p2 [e2 L2]].
+  destruct (run_cycle_log B1 r1 c1) as [p1 [e1 L1]]. destruct (run_cycle_log B2 r2 c2) as [p2 [e2 L2]].
   rewrite L1, L2 in He |- *. cbn [hd snd] in He. unfold key_trace in *. cbn [map fst snd]. rewrite He, Htr.
   destruct Hc as [Ht _]. rewrite Ht. reflexivity.
 Qed.
@@ -259,7 +258,7 @@ Proof. revert i; induction vals as [|v r IH]; intros i; cbn; [reflexivity|]. rew
 
 Lemma untouched_cycle_identity (B : body S) t bc j ks :
   kinv ks ->
-  match bc with Some (_, m) => m = false | None => True end ->
+  any_mod bc = false ->
   match k_inst ks with Some s => wake_due B s t = false | None => True end ->
   key_step B t bc j ks [] = (ks, no_ev).
 Proof.
@@ -269,11 +268,11 @@ Proof.
   assert (Hb : any_bound (map (fun v : option Z => (v, false)) (k_vals ks)) = bound_somewhere (k_vals ks)).
   { rewrite any_bound_map, Hfst. reflexivity. }
   rewrite Hb, Hfst.
-  assert (Hm : any_mod (map (fun v : option Z => (v, false)) (k_vals ks) ++ match bc with Some a => [a] | None => [] end) = false).
-  { unfold any_mod. rewrite existsb_app.
+  assert (Hm : any_mod (map (fun v : option Z => (v, false)) (k_vals ks) ++ bc) = false).
+  { unfold any_mod in *. rewrite existsb_app.
     assert (E : existsb (fun p : option Z * bool => is_some (fst p) && snd p) (map (fun v : option Z => (v, false)) (k_vals ks)) = false).
     { clear. induction (k_vals ks) as [|v r IH]; [reflexivity|]. cbn [map existsb fst snd]. rewrite IH, andb_false_r. reflexivity. }
-    rewrite E. destruct bc as [[v m]|]; cbn; [|reflexivity]. subst m. rewrite andb_false_r. reflexivity. }
+    rewrite E. exact Hbc. }
   destruct ks as [vals inst valid]. cbn [k_vals k_inst k_valid] in *.
   destruct inst as [s|]; cbn [is_some] in Hl.
   - rewrite <- Hl. cbn [is_some negb orb]. rewrite Hm, Hw. cbn [orb]. reflexivity.
@@ -282,11 +281,11 @@ Qed.
 
 (* ------------------------------------------------------------------ a re-added key is fresh *)
 (* while a key is absent nothing of it is kept: its state is literally the initial one *)
-Lemma absent_is_initial (B : Z -> body S) use_bc ndict keys h j ks :
-  kget j (r_st (run B use_bc (start_state ndict keys) h)) = Some ks ->
+Lemma absent_is_initial (B : Z -> body S) ndict keys h j ks :
+  kget j (r_st (run B (start_state ndict keys) h)) = Some ks ->
   k_inst ks = None -> ks = kinit ndict.
 Proof.
-  intros H Hn. destruct (reach_kinv _ _ _ _ _ _ _ H) as [Hl Hv]. destruct (reach_vals _ _ _ _ _ _ _ H) as [Hlen _].
+  intros H Hn. destruct (reach_kinv _ _ _ _ _ _ H) as [Hl Hv]. destruct (reach_vals _ _ _ _ _ _ H) as [Hlen _].
   destruct ks as [vals inst valid]. cbn [k_inst k_vals k_valid] in *. subst inst. cbn [is_some] in *.
   unfold kinit. f_equal.
   - clear Hv H. revert ndict Hlen. induction vals as [|v r IH]; intros n Hlen; cbn in Hlen; subst n; [reflexivity|].
@@ -295,8 +294,8 @@ Proof.
   - destruct valid; [specialize (Hv eq_refl); discriminate|reflexivity].
 Qed.
 
-Lemma kget_run_none (B : Z -> body S) use_bc j h : forall r,
-  kget j (r_st r) = None -> kget j (r_st (run B use_bc r h)) = None.
+Lemma kget_run_none (B : Z -> body S) j h : forall r,
+  kget j (r_st r) = None -> kget j (r_st (run B r h)) = None.
 Proof.
   induction h as [|c h IH]; intros r H; [exact H|]. cbn [run fold_left]. apply IH.
   rewrite kget_run_cycle, H. reflexivity.
@@ -305,27 +304,27 @@ Qed.
 Lemma same_for_refl j h : Forall2 (same_for j) h h.
 Proof. induction h; constructor; [repeat split|assumption]. Qed.
 
-Definition clear_log (r : run_state S) : run_state S := mkR (r_st r) (r_bc r) (r_primed r) [].
-Definition fresh_state (ndict : nat) (keys : list Z) (bc : option Z) : run_state S :=
-  mkR (map (fun k => (k, kinit ndict)) keys) bc false [].
+Definition clear_log (r : run_state S) : run_state S := mkR (r_st r) (r_primed r) [].
+Definition fresh_state (ndict : nat) (keys : list Z) : run_state S :=
+  mkR (map (fun k => (k, kinit ndict)) keys) false [].
 
 (* readd_is_fresh: once key j is absent (after ANY history h1), everything that happens to j afterwards -
-   under ANY continuation h2 - is exactly what happens to j in a map that has just been created (same
-   broadcast value): no state, validity or schedule of the earlier life survives. *)
-Lemma readd_fresh (B : Z -> body S) use_bc ndict keys h1 h2 j ks :
-  kget j (r_st (run B use_bc (start_state ndict keys) h1)) = Some ks -> k_inst ks = None ->
-  let r1 := clear_log (run B use_bc (start_state ndict keys) h1) in
-  key_trace j (r_log (run B use_bc r1 h2)) = key_trace j (r_log (run B use_bc (fresh_state ndict keys (r_bc r1)) h2)).
+   under ANY continuation h2 - is exactly what happens to j in a map that has just been created:
+   no state, validity or schedule of the earlier life survives. *)
+Lemma readd_fresh (B : Z -> body S) ndict keys h1 h2 j ks :
+  kget j (r_st (run B (start_state ndict keys) h1)) = Some ks -> k_inst ks = None ->
+  let r1 := clear_log (run B (start_state ndict keys) h1) in
+  key_trace j (r_log (run B r1 h2)) = key_trace j (r_log (run B (fresh_state ndict keys) h2)).
 Proof.
   intros Hk Hn r1.
   assert (Hinit : ks = kinit ndict) by (eapply absent_is_initial; eassumption). subst ks.
-  assert (Hfresh : kget j (r_st (fresh_state ndict keys (r_bc r1))) = Some (kinit ndict)).
-  { destruct (kget j (r_st (fresh_state ndict keys (r_bc r1)))) as [x|] eqn:E.
+  assert (Hfresh : kget j (r_st (fresh_state ndict keys)) = Some (kinit ndict)).
+  { destruct (kget j (r_st (fresh_state ndict keys))) as [x|] eqn:E.
     - apply (kget_start ndict keys j x) in E. subst x. reflexivity.
     - exfalso. assert (E' : kget j (r_st (start_state (S:=S) ndict keys)) = None) by exact E.
-      apply (kget_run_none B use_bc j h1) in E'. congruence. }
-  apply (isolated_gen B B use_bc j h2 h2 r1 (fresh_state ndict keys (r_bc r1))); [reflexivity| |apply same_for_refl|reflexivity].
-  split; [|reflexivity]. cbn [r1 clear_log r_st]. rewrite Hk, Hfresh. reflexivity.
+      apply (kget_run_none B j h1) in E'. congruence. }
+  apply (isolated_gen B B j h2 h2 r1 (fresh_state ndict keys)); [reflexivity| |apply same_for_refl|reflexivity].
+  unfold agree_on. cbn [r1 clear_log r_st]. rewrite Hk, Hfresh. reflexivity.
 Qed.
 
 End Facts.
